@@ -131,9 +131,9 @@ From LE Require Import Sync.Converge.
 (* observation: chain after, peer banned, Sync returned an error, temp blocks (height, code) after, a block at or
    below the finalized height changed, the whole database equals the one before *)
 Definition sync_obs : Type := list N * bool * bool * list (N * N) * bool * bool.
-(* fast sync?, chain before, finalized height, peer's common-block answer, delivered blocks, ending (0 ok, 1 error,
+(* fast sync?, chain before, temp blocks (height, code) before, finalized height, peer's common-block answer, delivered blocks, ending (0 ok, 1 error,
    2 statelessly invalid block), valid links (parent, block), target height, 2 * validators, observation *)
-Definition sync_case : Type := bool * list N * N * option N * list N * N * list (N * N) * N * N * sync_obs.
+Definition sync_case : Type := bool * list N * list (N * N) * N * option N * list N * N * list (N * N) * N * N * sync_obs.
 
 Definition link_valid (links : list (N * N)) (c : list N) (b : N) : bool :=
   match rev c with
@@ -151,11 +151,11 @@ Definition oN_eqb (a b : option N) : bool :=
   match a, b with Some x, Some y => x =? y | None, None => true | _, _ => false end.
 
 Definition check_sync (k : sync_case) : N :=
-  let '(fast, before, fin, common, delivered, e, links, th, r2, o) := k in
+  let '(fast, before, temp0, fin, common, delivered, e, links, th, r2, o) := k in
   let '(after, banned_o, err_o, temp_o, lowdel, dbeq) := o in
-  let n0 := {| chain := before; temp := []; finalized := N.to_nat fin; banned := false |} in
+  let n0 := {| chain := before; temp := map (fun kv => (N.to_nat (fst kv), snd kv)) temp0; finalized := N.to_nat fin; banned := false |} in
   let en := match e with 0 => EndOk | 1 => EndErr | _ => EndInvalid end in
-  let '(n', out) := if fast then fast_sync (link_valid links) false n0 common delivered en (N.to_nat th) (N.to_nat r2)
+  let '(n', out) := if fast then fast_sync (link_valid links) false true n0 common delivered en (N.to_nat th) (N.to_nat r2)
                     else block_sync (link_valid links) n0 common delivered en in
   let synced := match out with Synced => true | _ => false end in
   let hs := seq 0 (length before + length delivered + 2) in
